@@ -15,10 +15,10 @@ import (
 
 // EqualCase is one template configuration for the Equal / hash harnesses.
 type EqualCase struct {
-	Name   string
-	TmX    *sx.Tmpl
-	TmY    *sx.Tmpl
-	Triple bool
+	Name    string
+	TmX     *sx.Tmpl
+	TmY     *sx.Tmpl
+	Triple  bool
 	FixTagX int // -1 = free; otherwise X's JSON type is fixed (splits the exploration across workers)
 	FixTagY int
 }
